@@ -75,10 +75,8 @@ def gen_auth_case(rng: random.Random, tier: str, backends=('dict',)) -> dict:
            'tls': rng.random() < 0.5, 'bad_command_limit': 0,
            'invalid_user_sleep': 0.3}
     proto = 'imap' if rng.random() < 0.7 else 'sieve'
-    if proto == 'sieve':
-        # the maildir backend has a single unnamed script per user, the
-        # marker-script reveal needs the dict backend's named scripts
-        cfg['backend'] = 'dict'
+    # (ManageSieve on maildir: one script per user, named "active"; the
+    # identity reveal reads its content instead of the listing)
     peer = rng.choice(['1.2.3.4', '127.0.0.1'])
     attempts = [gen_attempt(rng) for _ in range(rng.randint(1, 6))]
     steps = []
@@ -311,11 +309,13 @@ def run_sieve(case: dict, trace: bool) -> dict:
     attempts = 0
     tls = bool(case['config'].get('tls'))
     local = case['peer'] == '127.0.0.1'
+    backend = case['config'].get('backend', 'dict')
+    single = backend == 'maildir'
 
     def violate(clause, detail):
         violations.append(Violation(property='C09', clause=clause,
                                     detail=detail,
-                                    sig={'backend': 'dict', 'proto': 'sieve'},
+                                    sig={'backend': backend, 'proto': 'sieve'},
                                     step=attempts, seq=world.seq))
     try:
         for u in USERS:
@@ -327,14 +327,31 @@ def run_sieve(case: dict, trace: bool) -> dict:
                 sc.command(b'STARTTLS\r\n')
                 world.run(0.5, None, [])
             sc.command(SieveClient.plain(u['name'], u['password']))
-            sc.command(b'PUTSCRIPT "mark-' + u['name'].encode() +
-                       b'" "keep;"\r\n')
+            if single:
+                sc.command(b'PUTSCRIPT "active" "# mark-' +
+                           u['name'].encode() + b'"\r\n')
+            else:
+                sc.command(b'PUTSCRIPT "mark-' + u['name'].encode() +
+                           b'" "keep;"\r\n')
             sc.command(b'LOGOUT\r\n')
         cl = SieveClient(world, 0, case['peer'])
         world.run(0.5, None, [])
         state = {'auth': None, 'tls_done': False}
 
         def reveal():
+            if single:
+                r = cl.command(b'GETSCRIPT "active"\r\n')
+                if r is None:
+                    return 'closed'
+                if not r.ok:
+                    # NO before authentication; after it the script exists
+                    r2 = cl.command(b'LISTSCRIPTS\r\n')
+                    if r2 is None:
+                        return 'closed'
+                    return 'no-script' if r2.ok else None
+                body = b''.join(bytes(t) for line in r.lines for t in line)
+                return body[7:].decode() if body.startswith(b'# mark-') \
+                    else 'script=%r' % body
             r = cl.command(b'LISTSCRIPTS\r\n')
             if r is None:
                 return 'closed'
@@ -479,7 +496,11 @@ class C09(Profile):
             '(EXTERNAL, XOAUTH2, CRAM-MD5, ...: never a way in), EOF '
             'or reset while the server waits; configurations TLS required '
             'or not x peer 127.0.0.1 or 1.2.3.4 x STARTTLS issued or not; '
-            'IMAP (70%) and ManageSieve (30%); invalid_user_sleep left at '
+            'IMAP (70%) and ManageSieve (30%, with UNAUTHENTICATE after 35% '
+            'of the attempts: what an earlier success left on the '
+            'connection must not help the next attempt; on maildir the '
+            'identity is revealed by the content of the single "active" '
+            'script); invalid_user_sleep left at '
             '0.3 s (virtual). After every attempt LIST "" * (LISTSCRIPTS) '
             'must be accepted iff the model says authenticated and the '
             'marker mailbox/script names the identity the model expects. '
